@@ -104,14 +104,71 @@ func (c *Check) scanExact(fam string, pre, rec Shape) (reason string, assumption
 
 // recordShapes returns the shapes used by Set operations per family.
 func (c *Check) storeSites() (sites []*Eff) {
+	var parametric []*Eff
 	for _, f := range c.handFuncs("keeper", "service") {
 		for _, e := range c.directEffects(f) {
-			if e.Kind == "store" {
-				sites = append(sites, e)
+			if e.Kind != "store" {
+				continue
 			}
+			if e.Family == "?" && e.Key != nil && mentionsParam(e.Key) {
+				parametric = append(parametric, e)
+				continue
+			}
+			sites = append(sites, e)
+		}
+	}
+	// a site whose key is (computed from) a parameter of its function stands for its instantiations in the callers
+	for _, pe := range parametric {
+		seen := map[string]bool{}
+		n := 0
+		for _, h := range c.handFuncs("keeper", "service") {
+			for _, x := range c.P.SummaryOf(h).Effs {
+				if x.Kind != "store" || x.Pos != pe.Pos || len(x.Chain) == 0 || x.Op != pe.Op {
+					continue
+				}
+				if x.Family == "?" && mentionsParam(x.Key) {
+					continue // handed further up
+				}
+				k := x.Family + "|" + x.Key.String()
+				if seen[k] {
+					continue
+				}
+				seen[k] = true
+				n++
+				if x.Op == "Iter" {
+					// what the helper does with the family it scans, under this instantiation
+					cp := *x
+					cp.Class = "read"
+					for _, y := range c.P.SummaryOf(h).Effs {
+						if y.Kind == "store" && y.Family == x.Family && strings.Join(y.Chain, ">") == strings.Join(x.Chain, ">") {
+							if y.Op == "Delete" {
+								cp.Class = "delete"
+							} else if y.Op == "Set" && cp.Class != "delete" {
+								cp.Class = "write"
+							}
+						}
+					}
+					x = &cp
+				}
+				sites = append(sites, x)
+			}
+		}
+		if n == 0 {
+			sites = append(sites, pe)
 		}
 	}
 	return
+}
+
+func mentionsParam(t *Term) bool {
+	hit := false
+	t.Walk(func(x *Term) bool {
+		if x.Op == "" && len(x.At) >= 2 && x.At[0] == 'P' && x.At[1] >= '0' && x.At[1] <= '9' {
+			hit = true
+		}
+		return !hit
+	})
+	return hit
 }
 
 func (c *Check) keyGrammar(prefix string, families map[string]bool) {
@@ -231,9 +288,9 @@ func (c *Check) keyGrammar(prefix string, families map[string]bool) {
 		nscan++
 		construct := "scan:" + e.Fn.Name
 		if b := kt.Builders[e.Builder]; b != nil {
-			construct = "scan:" + b.Shape.kinds() + ":" + c.scanClass(e.Fn, e.Family)
+			construct = "scan:" + b.Shape.kinds() + ":" + c.scanClassOf(e)
 		} else {
-			construct = "scan:" + e.Family + ":" + c.scanClass(e.Fn, e.Family) + ":" + e.Fn.Name
+			construct = "scan:" + e.Family + ":" + c.scanClassOf(e) + ":" + e.Fn.Name
 		}
 		if e.Family == "?" {
 			continue // reported under K1
@@ -598,6 +655,13 @@ func (sh Shape) kinds() string {
 }
 
 // scanClass: what the function containing a scan does with the scanned family.
+func (c *Check) scanClassOf(e *Eff) string {
+	if e.Class != "" {
+		return e.Class
+	}
+	return c.scanClass(e.Fn, e.Family)
+}
+
 func (c *Check) scanClass(f *Func, fam string) string {
 	del, set := false, false
 	for _, e := range c.directEffectsDepth(f, 1) {
